@@ -23,3 +23,8 @@ Definition wideb (d : nat) (b : board) : bool :=
 Definition soundWb (T : ztable) (rook_t bishop_t : N -> N -> N) (d : nat) (b : board) : bool :=
   invb rook_t bishop_t b && legal_materialb (white b) && legal_materialb (black b)
   && wideb d b && (hash b =? key_of T (abstract b)).
+
+(* the domain of the cache / schedule theorems (ClosedWide.SoundC): the wide domain and no third
+   repetition recorded (the repetition count is read by the leaf score and is not part of the key) *)
+Definition soundCb (T : ztable) (rook_t bishop_t : N -> N -> N) (d : nat) (b : board) : bool :=
+  soundWb T rook_t bishop_t d b && negb (hd 0 (seen_stack b) =? 3).
